@@ -1,8 +1,8 @@
 SPECIFICATION Spec
 CONSTANTS
   Deviations <- AllDevs
-  Fams <- FamsAll
-  Modes <- ModesAll
+  Fams <- FamsMha
+  Modes <- ModesChain
   Big = FALSE
 INVARIANT NeverAttention
 CHECK_DEADLOCK FALSE
